@@ -761,6 +761,103 @@ theorem bounds_grid_coords (b0 b1 b2 : List Rat) (ox oy oz : Rat) (limits geom s
 example : WF (boundsGrid [0, 1] [0, 2, 5] [0, 10] [0, 0, 0] [(0, 1), (0, 1), (0, 1)] "thetarz" "full") := by
   refine ⟨rfl, rfl, ?_⟩; simp [boundsGrid, stepDims, List.range, List.range.loop]
 
+/-! ### θ-R-Z grids -/
+
+/-- **polar → Cartesian conversion, over any commutative ring**: for parameters c, s with c² + s² = 1
+(cos θ, sin θ) the point (r·c, r·s) lies at distance r from the axis (x² + y² = r²) and on the ray of
+direction (c, s) (x·s = y·c). -/
+theorem polar_on_circle {K : Type} [CommRing K] (r c s : K) (h : c * c + s * s = 1) :
+    (r * c) * (r * c) + (r * s) * (r * s) = r * r ∧ (r * c) * s = (r * s) * c := by
+  constructor
+  · have : (r * c) * (r * c) + (r * s) * (r * s) = r * r * (c * c + s * s) := by ring
+    rw [this, h]; ring
+  · ring
+
+/-- **`ThetaRZGrid.getCoordinates`**: it is defined exactly when the mesh coordinates (θ, r, z) exist and
+0 ≤ θ ≤ τ; the native form returns (θ, r, z) unchanged, the Cartesian form (r·cos θ, r·sin θ, z). -/
+theorem trz_coordinates_spec (tau cs sn : Rat) (g : G) (idx : List Int) (v : List Rat) (native : Bool) :
+    trzGetCoordinates tau cs sn native g idx = some v ↔
+      ∃ θ r z, getCoordinates g idx = some [θ, r, z] ∧ 0 ≤ θ ∧ θ ≤ tau ∧
+        v = if native then [θ, r, z] else [r * cs, r * sn, z] := by
+  unfold trzGetCoordinates
+  constructor
+  · intro h
+    split at h
+    · rename_i θ r z hm
+      split at h
+      · rename_i hr
+        refine ⟨θ, r, z, hm, hr.1, hr.2, ?_⟩
+        cases native <;> simp at h ⊢ <;> exact h.symm
+      · simp at h
+    · simp at h
+  · rintro ⟨θ, r, z, hm, h0, h1, rfl⟩
+    rw [hm]
+    simp only [h0, h1, and_self, if_true]
+    cases native <;> rfl
+
+/-- the Cartesian image keeps z, lies at radius r and on the θ ray (cos² + sin² = 1 assumed of the
+parameters) -/
+theorem trz_xyz_on_circle (tau cs sn : Rat) (hcs : cs * cs + sn * sn = 1) (g : G) (idx : List Int)
+    (θ r z : Rat) (hn : trzGetCoordinates tau cs sn true g idx = some [θ, r, z]) :
+    ∃ x y, trzGetCoordinates tau cs sn false g idx = some [x, y, z] ∧ x * x + y * y = r * r ∧ x * sn = y * cs := by
+  obtain ⟨θ', r', z', hm, h0, h1, hv⟩ := (trz_coordinates_spec tau cs sn g idx _ true).mp hn
+  simp only [if_true, List.cons.injEq, and_true] at hv
+  obtain ⟨rfl, rfl, rfl⟩ := hv
+  refine ⟨θ * 0 + r * cs, r * sn, ?_, ?_, ?_⟩
+  · rw [(trz_coordinates_spec tau cs sn g idx _ false)]
+    exact ⟨θ, r, z, hm, h0, h1, by simp⟩
+  · have := (polar_on_circle r cs sn hcs).1; simpa using this
+  · have := (polar_on_circle r cs sn hcs).2; simpa using this
+
+/-- base and top of an all-bounds grid cell: the lower / upper bound in every dimension plus offset -/
+theorem bounds_grid_base_top (b0 b1 b2 : List Rat) (ox oy oz : Rat) (limits geom sym) (i j k : Int)
+    (l0 l1 l2 u0 u1 u2 : Rat)
+    (hl0 : meshBaseByBounds i b0 = some l0) (hl1 : meshBaseByBounds j b1 = some l1)
+    (hl2 : meshBaseByBounds k b2 = some l2) (hu0 : meshBaseByBounds (i + 1) b0 = some u0)
+    (hu1 : meshBaseByBounds (j + 1) b1 = some u1) (hu2 : meshBaseByBounds (k + 1) b2 = some u2) :
+    getCellBase (boundsGrid b0 b1 b2 [ox, oy, oz] limits geom sym) [i, j, k] = some [l0 + ox, l1 + oy, l2 + oz] ∧
+    getCellTop (boundsGrid b0 b1 b2 [ox, oy, oz] limits geom sym) [i, j, k] = some [u0 + ox, u1 + oy, u2 + oz] := by
+  constructor <;>
+  simp [getCellBase, getCellTop, evaluateMesh, boundsGrid, stepDims, boundDims, selectAt, meshBaseBySteps,
+    centroidBySteps, dot, dotv, scatter, List.range, List.range.loop, hl0, hl1, hl2, hu0, hu1, hu2]
+
+/-- **θ-R-Z cell in native coordinates: base ≤ centre ≤ top in every dimension, the centre being the
+midpoint**, whenever the bounds around the cell are ordered -/
+theorem trz_native_base_centre_top (b0 b1 b2 : List Rat) (ox oy oz : Rat) (limits geom sym) (i j k : Int)
+    (l0 l1 l2 u0 u1 u2 : Rat)
+    (hl0 : meshBaseByBounds i b0 = some l0) (hl1 : meshBaseByBounds j b1 = some l1)
+    (hl2 : meshBaseByBounds k b2 = some l2) (hu0 : meshBaseByBounds (i + 1) b0 = some u0)
+    (hu1 : meshBaseByBounds (j + 1) b1 = some u1) (hu2 : meshBaseByBounds (k + 1) b2 = some u2)
+    (h0 : l0 ≤ u0) (h1 : l1 ≤ u1) (h2 : l2 ≤ u2) :
+    ∃ c0 c1 c2, getCoordinates (boundsGrid b0 b1 b2 [ox, oy, oz] limits geom sym) [i, j, k] = some [c0, c1, c2] ∧
+      c0 = (l0 + u0) / 2 + ox ∧ c1 = (l1 + u1) / 2 + oy ∧ c2 = (l2 + u2) / 2 + oz ∧
+      l0 + ox ≤ c0 ∧ c0 ≤ u0 + ox ∧ l1 + oy ≤ c1 ∧ c1 ≤ u1 + oy ∧ l2 + oz ≤ c2 ∧ c2 ≤ u2 + oz := by
+  have cen : ∀ (n : Int) (b : List Rat) (l u : Rat), meshBaseByBounds n b = some l →
+      meshBaseByBounds (n + 1) b = some u → centroidByBounds n b = some ((l + u) / 2) := by
+    intro n b l u hl hu
+    simp only [meshBaseByBounds, centroidByBounds] at *
+    split at hl
+    · simp at hl
+    · rename_i hn
+      have hn1 : ¬ (n + 1 < 0) := by omega
+      simp only [hn1, if_false] at hu
+      simp only [hn, if_false, hl, hu, Option.bind_eq_bind, Option.bind_some, Option.some.injEq]
+      ring
+  refine ⟨(l0 + u0) / 2 + ox, (l1 + u1) / 2 + oy, (l2 + u2) / 2 + oz, ?_, rfl, rfl, rfl, ?_⟩
+  · exact bounds_grid_coords b0 b1 b2 ox oy oz limits geom sym i j k _ _ _ (cen i b0 l0 u0 hl0 hu0)
+      (cen j b1 l1 u1 hl1 hu1) (cen k b2 l2 u2 hl2 hu2)
+  · refine ⟨?_, ?_, ?_, ?_, ?_, ?_⟩ <;> linarith
+
+/-- `ThetaRZGrid.getRingPos` / `getIndicesFromRingAndPos` are mutually inverse -/
+theorem trz_ringpos_inverse (i j r p : Int) :
+    trzFromRingPos (trzRingPos i j).1 (trzRingPos i j).2 = (i, j) ∧
+    trzRingPos (trzFromRingPos r p).1 (trzFromRingPos r p).2 = (r, p) := by
+  simp only [trzRingPos, trzFromRingPos, Prod.mk.injEq]; omega
+
+example : trzGetCoordinates 7 (3/5) (4/5) false (boundsGrid [0, 1, 2, 3] [0, 2, 5] [0, 10, 20, 45] [0, 0, 0] [] "" "")
+    [1, 1, 1] = some [21/10, 14/5, 15] := by decide +kernel
+example : ((3 : Rat) / 5) * (3 / 5) + (4 / 5) * (4 / 5) = 1 := by norm_num
+
 /-! ### sequences of pitch changes -/
 
 /-- **a sequence of hex pitch changes ends in exactly the grid built at the last pitch** (no drift,
